@@ -116,3 +116,40 @@ Example C20_example_cycle :
   = Ok ([EIn 0; EIn 1; ECycle 0 [0; 1]; EOut 1; EIn 2; ETok 0; EOut 2; EOut 0], [0; 2; 1]) /\
   visit_loop cyc false (fun _ => cyc_kids) 40 0 = visit cyc false (fun _ => cyc_kids) 0.
 Proof. vm_compute. split; reflexivity. Qed.
+
+(* ---- the forest as lark builds it: a label-keyed graph, possibly cyclic (Forest/GraphResolve.v) ---------
+   ForestToParseTree(resolve_ambiguity=True): whatever tree the walk returns is one of the finite unfoldings the
+   graph forest stores ([den] of Forest/ExplicitBuild.v) - on every forest, cyclic or not, for every
+   rearrangement [order] of the packed children ... *)
+From LV Require Import Cfg.Grammar Forest.ExplicitBuild Forest.GraphResolve Forest.GraphResolve_proofs.
+
+Theorem C20_graph_resolve_in_den (tok : Type) (teqb : tok -> tok -> bool)
+  (teqb_spec : forall a b, teqb a b = true <-> a = b)
+  (fams : list (nlabel tok * family tok)) (order : nlabel tok -> list (family tok) -> list (family tok))
+  (order_perm : forall l fs f, In f (order l fs) <-> In f fs) a i j d :
+  graph_resolve tok teqb fams order (NSym tok a i j) = Some d ->
+  den tok (in_forest tok fams) (NSym tok a i j) [d].
+Proof. exact (graph_resolve_in_den tok teqb teqb_spec fams order order_perm a i j d). Qed.
+Print Assumptions C20_graph_resolve_in_den.
+
+(* ... and it returns one whenever the forest stores one below the root: the walk retreats from the packed
+   children that run into the current path (on_cycle / _on_cycle_retreat) and goes on with the next one, which
+   finds a finite unfolding whenever there is one - also on cyclic forests *)
+Theorem C20_graph_resolve_total (tok : Type) (teqb : tok -> tok -> bool)
+  (teqb_spec : forall a b, teqb a b = true <-> a = b)
+  (fams : list (nlabel tok * family tok)) (order : nlabel tok -> list (family tok) -> list (family tok))
+  (order_perm : forall l fs f, In f (order l fs) <-> In f fs) a i j d :
+  den tok (in_forest tok fams) (NSym tok a i j) [d] ->
+  graph_resolve tok teqb fams order (NSym tok a i j) <> None.
+Proof. exact (graph_resolve_total tok teqb teqb_spec fams order order_perm a i j d). Qed.
+Print Assumptions C20_graph_resolve_total.
+
+(* the forest of  a: a | X  on "x": node (a,0,1) with packed children (a -> a) and (a -> X); the first one runs
+   into the path and is abandoned, the second is kept *)
+Definition ra := mkRule 0 [NT 0].
+Definition rx := mkRule 0 [T 0].
+Definition cyc_fams : list (nlabel nat * family nat) :=
+  [(NSym nat 0 0 1, (ra, None, Some (NSym nat 0 0 1))); (NSym nat 0 0 1, (rx, None, Some (NTok nat 0 7 0 1)))].
+Example C20_example_graph_resolve :
+  graph_resolve nat Nat.eqb cyc_fams (fun _ fs => fs) (NSym nat 0 0 1) = Some (DN nat rx [DL nat 0 7]).
+Proof. vm_compute. reflexivity. Qed.
